@@ -139,7 +139,9 @@ CompareFile(final) ==
        \* the type that selected the container (the first one's) is.
        /\ IF dec.fileids = 1 THEN CompareMsg(w @@ [slot |-> "FileId"], 0, dec.fileid, dec.fileidskip, o.fileid, [csd |-> FALSE], gacc, lacc) ELSE TRUE
        /\ IF o.type = dec.ftype THEN TRUE ELSE Note(w @@ [what |-> "file type", expected |-> dec.ftype, observed |-> o.type])
-       /\ IF final = "either" THEN TRUE
+       \* where the walk stopped at an "either" construct nothing further is
+       \* compared, even if the frame must be rejected for its checksum
+       /\ IF dec.verdict = "either" THEN TRUE
           ELSE
           /\ IF final = "accept" /\ o.crc # dec.filecrc THEN Note(w @@ [what |-> "file crc field", expected |-> dec.filecrc, observed |-> o.crc]) ELSE TRUE
           /\ IF dec.hascreator = (Len(o.creator) = 1) THEN TRUE ELSE Note(w @@ [what |-> "file_creator presence"])
